@@ -60,7 +60,18 @@ def run(chk, repo):
                                         f"so a truncated file can yield a tree instead of an error", key=f"{key}:{e.name}")
                 continue
             raise
-        chk.ok("C18-E5", key, f"{len(leaves)} leaves, every field consumes a definite number of bytes (layout fully modelled, end = {end})")
+        # a forward Seek steps over bytes without reading them and does not fail beyond the end of the data: when nothing is read after
+        # it, a file that ends inside the stepped-over area is accepted
+        skipped = []
+        ordered = [lf for lf in leaves if lf.kind in ("field", "seek")]
+        for i, lf in enumerate(ordered):
+            if lf.kind == "seek" and not (lf.width.is_const() and lf.width.value() <= 0):
+                later_reads = [x for x in ordered[i + 1:] if x.kind == "field" and not (x.width is not None and x.width.is_const() and x.width.value() == 0)]
+                if not later_reads:
+                    skipped.append(lf)
+        chk.require(not skipped, "C18-E5", key, f"{len(leaves)} leaves, every field consumes a definite number of bytes (layout fully modelled, end = {end})",
+                    f"the last {skipped[0].width if skipped else ''} bytes of the {key} layout ({skipped[0].name if skipped else ''}) are stepped over with Seek instead of being read: seeking beyond the end of the data does not fail, "
+                    f"so a file cut short inside them is parsed as if it were complete", key=f"{key}:tail-seek")
     chk.count("functions", len(op.reach))
 
 
